@@ -454,7 +454,7 @@ func c11Lens(c *Ctx, g *prng.Rng, srcLen, nstar, bound int, encoded []byte) []in
 			maxSeq = 40
 		}
 		for _, off := range seqBoundaries(encoded, maxSeq) {
-			set[off-1], set[off] = true, true
+			set[off-2], set[off-1], set[off] = true, true, true
 		}
 		for j := 0; j < k; j++ {
 			if nstar > 16 && g.Bool() {
